@@ -10,7 +10,7 @@ func init() { register("C12", checkC12) }
 
 func checkC12(p *Prog, r *Report) {
 	checkSkipFileTable(p, r)
-	checkModTimeEqual(p, r)
+	checkModTimeEqual(p, r, "C12/SECOND-GRANULARITY")
 	checkRequestTable(p, r)
 	r.Trust("time.Time.Truncate/Equal semantics; bytes.Equal")
 	r.Uncovered("that equal decision tables imply equal behaviour for all timestamps; repeat-sync idempotence end to end (needs C11: mtime applied after the rename)")
@@ -141,8 +141,7 @@ func checkSkipFileTable(p *Prog, r *Report) {
 
 // paramOrReassigned: v is parameter prm, or a load of the local slot the
 // parameter was spilled to.
-func checkModTimeEqual(p *Prog, r *Report) {
-	rule := "C12/SECOND-GRANULARITY"
+func checkModTimeEqual(p *Prog, r *Report, rule string) {
 	r.Rule(rule, "modTimeEqual(a,b) returns a.Truncate(time.Second).Equal(b.Truncate(time.Second))", 1)
 	fn := anchorFunc(p, r, pkgReceiver, "", "modTimeEqual")
 	if fn == nil || len(fn.Params) != 2 {
@@ -336,19 +335,10 @@ func checkRequestTable(p *Prog, r *Report) {
 		}}
 	pe.Run(fn)
 	spec := func(ask func(string) bool) string {
-		if ask("L") {
-			return "nothing"
-		}
-		if ask("DIR") {
-			return "nothing"
-		}
-		if ask("PL") && ask("LNK") {
-			return "nothing"
-		}
-		if ask("PD") && (ask("CHR") || ask("BLK") || ask("SOCK") || ask("FIFO")) {
-			return "nothing"
-		}
-		if !ask("REG") {
+		// Entries that are not handled as regular files (list-only, directories,
+		// symlinks under -l, special files under -D, unsupported types) never
+		// request data: those paths return before the regular-file test.
+		if !ask("?REG") || !ask("REG") {
 			return "nothing"
 		}
 		if ask("N") {
